@@ -40,6 +40,9 @@ Step == /\ pc = "running" /\ Ev.ev = "step"
         /\ Remember(<<Ev.key, Ev.prefix>>, Ev.digest)
         /\ t' = t + 1 /\ UNCHANGED pc
 
-TraceNext == Adv /\ (Make \/ Reset \/ Step)
+\* un-jitted, un-vmapped use: stepping twice from one state object gives the same history and leaves that object alone
+Purity == pc = "running" /\ Ev.ev = "purity" /\ Ev.pure = 1 /\ UNCHANGED <<pc, memo, t>>
+
+TraceNext == Adv /\ (Make \/ Reset \/ Step \/ Purity)
 Progress == Reached(tid, l)
 =====================================================================================
